@@ -500,6 +500,8 @@ package raft
 //@   ensures [spec] result != nil && result.duration == duration && result.expiration == now && now >= old(now)
 
 //@ func operationManager.appliableReadOnlyOperations
+//@   flags fresh-result
+//@   ensures [nonnil] forall o *Operation :: o in r.pendingReadOnly ==> o != nil
 //@   requires r.pendingReadOnly != nil
 //@   requires forall o *Operation :: o in r.pendingReadOnly ==> o != nil
 //@   ensures [spec] result != nil && forall o *Operation :: o in result ==> o != nil && o.readIndex <= applyIndex && (o.OperationType == LinearizableReadOnly ==> o.quorumVerified) && (o.OperationType == LinearizableReadOnly || o.OperationType == LeaseBasedReadOnly)
